@@ -684,7 +684,202 @@ def build_T16g(tree):
     return t, hashlib.sha256('\n'.join(shas).encode()).hexdigest()
 
 
+# ---------------------------------------------------------------- T16h: what every filter forwards to the search helpers
+def _rel_values():
+    """RelationshipTypeValues: member name -> value, read from sr/enum.py of the tree under translation"""
+    import os
+    path = os.path.join(os.environ.get('HD_REPO', '/repo'), 'src', 'highdicom', 'sr', 'enum.py')
+    et = ast.parse(open(path).read())
+    for n in et.body:
+        if isinstance(n, ast.ClassDef) and n.name == 'RelationshipTypeValues':
+            return {st.targets[0].id: st.value.value for st in n.body
+                    if isinstance(st, ast.Assign) and isinstance(st.value, ast.Constant) and isinstance(st.value.value, str)}
+    raise Unsupported('sr/enum.py: RelationshipTypeValues not found')
+
+
+def build_T16h(tree):
+    """Every call of `_contains_code_items` / `_contains_uidref_items` / `_contains_image_items` inside the loops of the three
+    queries, in source order: (method, helper, parent searched, concept name "value|scheme" or "" for None, the filter
+    argument(s) forwarded as value, relationship type VALUE).
+      Gen.filterCalls : List (String × String × String × String × String × String)"""
+    mc = _module_codes(tree)
+    rels = _rel_values()
+    rows, shas = [], []
+    for meth in ('get_planar_roi_measurement_groups', 'get_volumetric_roi_measurement_groups', 'get_image_measurement_groups'):
+        fn = find_func(tree, f'MeasurementReport.{meth}')
+        loop = [s for s in strip_doc(fn.body) if isinstance(s, ast.For) and ast.unparse(s.target) == 'group_item']
+        if len(loop) != 1:
+            raise Unsupported(f'{meth}: loop over the groups not found')
+        calls = [n for n in ast.walk(loop[0]) if isinstance(n, ast.Call) and ast.unparse(n.func) in
+                 ('_contains_code_items', '_contains_uidref_items', '_contains_image_items', '_contains_text_items')]
+        calls.sort(key=lambda n: (n.lineno, n.col_offset))
+        for c in calls:
+            if len(c.args) != 1:
+                raise Unsupported(f'{meth}: `{ast.unparse(c)[:60]}` no longer passes the parent as its only positional argument')
+            kw = {k.arg: k.value for k in c.keywords}
+            helper = ast.unparse(c.func)
+            want = {'name', 'relationship_type'} | ({'value'} if helper != '_contains_image_items' else
+                                                    {'referenced_sop_class_uid', 'referenced_sop_instance_uid'})
+            if set(kw) != want:
+                raise Unsupported(f'{meth}: keywords of `{helper}` are {sorted(kw)}')
+            nm = kw['name']
+            name = '' if (isinstance(nm, ast.Constant) and nm.value is None) else _code_of(nm, mc)
+            if name is None:
+                raise Unsupported(f'{meth}: name `{ast.unparse(nm)}` of a search is not a known code')
+            rt = kw['relationship_type']
+            if not (isinstance(rt, ast.Attribute) and ast.unparse(rt.value) == 'RelationshipTypeValues' and rt.attr in rels):
+                raise Unsupported(f'{meth}: relationship type `{ast.unparse(rt)}` of a search')
+            if helper == '_contains_image_items':
+                if ast.unparse(kw['referenced_sop_class_uid']) != 'referenced_sop_class_uid' or \
+                        ast.unparse(kw['referenced_sop_instance_uid']) != 'referenced_sop_instance_uid':
+                    raise Unsupported(f'{meth}: the UID filters are not forwarded to `_contains_image_items` under their own names')
+                val = 'uids'
+            else:
+                val = ast.unparse(kw['value'])
+            rows.append((meth, helper, ast.unparse(c.args[0]), name, val, rels[rt.attr]))
+        shas.append('\n'.join(ast.unparse(c) for c in calls))
+    q = lambda x: '"' + x + '"'   # noqa: E731
+    t = lean_table('filterCalls', 'List (String × String × String × String × String × String)',
+                   ['(' + ', '.join(q(x) for x in r) + ')' for r in rows],
+                   doc='calls of the search helpers in the query loops: (method, helper, parent, concept name, value forwarded, relationship)')
+    return t, hashlib.sha256('\n'.join(shas).encode()).hexdigest()
+
+
+# ---------------------------------------------------------------- T16i: one iteration of the ROI reference search
+def build_T16i(tree):
+    """The body of `for item in group_item.ContentSequence` in `_get_roi_reference_items` as a step:
+      Gen.roiRefStep (rel : String) (name_allowed vt_expected rt_given name_is_rt : Bool) (rt : String) : Except ErrKind Bool
+    true = the item is appended (and becomes the reference type when none was found yet), false = skipped; RuntimeError
+    arms as in the source.  Shape checks: the table row is looked up under the item's name, the reference type is set to
+    the item's name, the items are appended in iteration order, the empty result raises, the function returns
+    (reference_type, returned_items)."""
+    mc = _module_codes(tree)
+    fn = find_func(tree, '_get_roi_reference_items')
+    body = strip_doc(fn.body)
+    loops = [s_ for s_ in body if isinstance(s_, ast.For)]
+    if len(loops) != 1 or ast.unparse(loops[0].target) != 'item' or ast.unparse(loops[0].iter) != 'group_item.ContentSequence':
+        raise Unsupported('_get_roi_reference_items: loop over group_item.ContentSequence not found')
+    src = ' '.join(ast.unparse(fn).split())
+    for needle in ('returned_items = []', 'reference_type = None', 'expected_value_types = ref_type_value_type_map[item.name]',
+                   'reference_type = item.name', 'returned_items.append(item)',
+                   "if len(returned_items) == 0: raise RuntimeError(", 'return (reference_type, returned_items)'):
+        if needle not in src:
+            raise Unsupported(f'_get_roi_reference_items no longer contains `{needle}`')
+    if src.count('returned_items.append(item)') != 1 or src.count('reference_type = item.name') != 1:
+        raise Unsupported('_get_roi_reference_items: more than one append / assignment of the reference type')
+
+    class R(_Rewrite):
+        def visit_Compare(self, node):
+            t = ast.unparse(node)
+            if t == 'item.relationship_type != RelationshipTypeValues.CONTAINS':
+                return ast.Compare(left=ast.Name(id='rel', ctx=ast.Load()), ops=[ast.NotEq()], comparators=[_const('CONTAINS')])
+            if t == 'item.name in allowed_reference_types':
+                return ast.Name(id='name_allowed', ctx=ast.Load())
+            if t == 'item.value_type in expected_value_types':
+                return ast.Name(id='vt_expected', ctx=ast.Load())
+            if t == 'reference_type is None':
+                return ast.UnaryOp(op=ast.Not(), operand=ast.Name(id='rt_given', ctx=ast.Load()))
+            if t == 'item.name != reference_type':
+                return ast.UnaryOp(op=ast.Not(), operand=ast.Name(id='name_is_rt', ctx=ast.Load()))
+            if isinstance(node.left, ast.Name) and node.left.id == 'reference_type' and len(node.ops) == 1 and \
+                    isinstance(node.ops[0], (ast.In, ast.NotIn)):
+                node = ast.Compare(left=ast.Name(id='rt', ctx=ast.Load()), ops=node.ops, comparators=node.comparators)
+                return super().visit_Compare(node)
+            raise Unsupported(f'_get_roi_reference_items: comparison `{t}` in the loop body')
+
+        def visit_Continue(self, node):
+            return ast.Return(value=ast.Constant(value=False))
+
+        def visit_Assign(self, node):
+            t = ast.unparse(node)
+            if t in ('expected_value_types = ref_type_value_type_map[item.name]', 'reference_type = item.name'):
+                return ast.Pass()
+            raise Unsupported(f'_get_roi_reference_items: assignment `{t}` in the loop body')
+
+        def visit_Expr(self, node):
+            if ast.unparse(node) == 'returned_items.append(item)':
+                return ast.Return(value=ast.Constant(value=True))
+            raise Unsupported(f'_get_roi_reference_items: statement `{ast.unparse(node)}` in the loop body')
+    stmts = _fix([R(mc).visit(ast.parse(ast.unparse(st)).body[0]) for st in loops[0].body] + [ast.parse('return False').body[0]])
+    t = translate_block(stmts, 'roiRefStep', [('rel', 'str'), ('name_allowed', 'bool'), ('vt_expected', 'bool'), ('rt_given', 'bool'),
+                                              ('name_is_rt', 'bool'), ('rt', 'str')], {},
+                        doc='`_get_roi_reference_items`: one iteration of the loop over the content items (true = appended)')
+    return t, hashlib.sha256(ast.unparse(fn).encode()).hexdigest()
+
+
+# ---------------------------------------------------------------- T16j: the kind test at the head of each query loop
+def build_T16j(tree):
+    """The statements of each query loop before `matches = []`: template identifier when the container has one, content
+    classification otherwise.
+      Gen.planarHead / Gen.volumetricHead (tid_given : Bool) (tid : String) (contains : Bool) : Except ErrKind Bool
+      Gen.imageHead (tid_given : Bool) (tid : String) (contains_planar contains_volumetric : Bool) : Except ErrKind Bool
+    true = the group is of the kind (the loop body goes on), false = `continue`."""
+    parts, shas = [], []
+    for meth, nm, params in (
+            ('get_planar_roi_measurement_groups', 'planarHead', [('tid_given', 'bool'), ('tid', 'str'), ('contains_planar', 'bool')]),
+            ('get_volumetric_roi_measurement_groups', 'volumetricHead', [('tid_given', 'bool'), ('tid', 'str'), ('contains_volumetric', 'bool')]),
+            ('get_image_measurement_groups', 'imageHead', [('tid_given', 'bool'), ('tid', 'str'), ('contains_planar', 'bool'),
+                                                           ('contains_volumetric', 'bool')])):
+        fn = find_func(tree, f'MeasurementReport.{meth}')
+        loop = [s_ for s_ in strip_doc(fn.body) if isinstance(s_, ast.For) and ast.unparse(s_.target) == 'group_item']
+        if len(loop) != 1:
+            raise Unsupported(f'{meth}: loop over the groups not found')
+        head = []
+        for st in loop[0].body:
+            if isinstance(st, ast.Assign) and ast.unparse(st) == 'matches = []':
+                break
+            head.append(st)
+        else:
+            raise Unsupported(f'{meth}: `matches = []` not found in the loop')
+        if not head:
+            raise Unsupported(f'{meth}: no kind test before `matches = []`')
+
+        class R(ast.NodeTransformer):
+            def visit_Compare(self, node):
+                t = ast.unparse(node)
+                if t == 'group_item.template_id is not None':
+                    return ast.Name(id='tid_given', ctx=ast.Load())
+                if t == 'group_item.template_id is None':
+                    return ast.UnaryOp(op=ast.Not(), operand=ast.Name(id='tid_given', ctx=ast.Load()))
+                return self.generic_visit(node)
+
+            def visit_Attribute(self, node):
+                if ast.unparse(node) == 'group_item.template_id':
+                    return ast.Name(id='tid', ctx=ast.Load())
+                return self.generic_visit(node)
+
+            def visit_Call(self, node):
+                t = ast.unparse(node)
+                if t == '_contains_planar_rois(group_item)':
+                    return ast.Name(id='contains_planar', ctx=ast.Load())
+                if t == '_contains_volumetric_rois(group_item)':
+                    return ast.Name(id='contains_volumetric', ctx=ast.Load())
+                raise Unsupported(f'{meth}: call `{t}` in the kind test')
+
+            def visit_Continue(self, node):
+                return ast.Return(value=ast.Constant(value=False))
+
+            def visit_AugAssign(self, node):
+                if isinstance(node.op, ast.BitOr) and isinstance(node.target, ast.Name):
+                    return ast.copy_location(
+                        ast.Assign(targets=[ast.Name(id=node.target.id, ctx=ast.Store())],
+                                   value=ast.BoolOp(op=ast.Or(), values=[ast.Name(id=node.target.id, ctx=ast.Load()),
+                                                                         self.visit(node.value)]), lineno=node.lineno), node)
+                raise Unsupported(f'{meth}: `{ast.unparse(node)}` in the kind test')
+        stmts = _fix([R().visit(ast.parse(ast.unparse(st)).body[0]) for st in head] + [ast.parse('return True').body[0]])
+        used = {n.id for st in stmts for n in ast.walk(st) if isinstance(n, ast.Name)}
+        for pn, _ in params:
+            if pn.startswith('contains_') and pn not in used:
+                raise Unsupported(f'{meth}: the kind test no longer consults {pn[9:]} content classification')
+        parts.append(translate_block(stmts, nm, params, {}, doc=f'`{meth}`: the kind test at the head of the loop (false = continue)'))
+        shas.append('\n'.join(ast.unparse(st) for st in head))
+    return '\n\n'.join(parts), hashlib.sha256('\n'.join(shas).encode()).hexdigest()
+
+
 TARGETS = {
+    'T16h': {'file': 'sr/templates.py', 'build': build_T16h},
+    'T16i': {'file': 'sr/templates.py', 'build': build_T16i},
+    'T16j': {'file': 'sr/templates.py', 'build': build_T16j},
     'T16g': {'file': 'sr/templates.py', 'build': build_T16g},
     'T16f': {'file': 'sr/templates.py', 'build': build_T16f},
     'T16e': {'file': 'sr/templates.py', 'build': build_T16e},
